@@ -363,6 +363,29 @@ func runZoneProvenance(c *Ctx) {
 					if okUse && zone != nil {
 						ok2, why = zoneOK(zone, fn)
 					}
+					// the instant is the number on the wire: seconds = the (converted) wire value itself, nanoseconds = 0; no
+					// arithmetic, no choice between readings (a "this must be milliseconds" heuristic changes valid seconds)
+					{
+						sec := call.Call.Args[0]
+						for {
+							cv, isConv := sec.(*ssa.Convert)
+							if !isConv {
+								break
+							}
+							sec = cv.X
+						}
+						whyU := ""
+						switch sec.(type) {
+						case *ssa.BinOp:
+							whyU = "the seconds are computed (" + canon(sec) + ")"
+						case *ssa.Phi:
+							whyU = "the seconds are chosen between several readings of the wire value"
+						}
+						if k, isK := constInt(call.Call.Args[1]); !isK || k != 0 {
+							whyU = "the nanoseconds are not the constant 0"
+						}
+						c.Check(whyU == "", "ZONE", shortName(fn), "time.Unix is handed the wire number", p.ipos(call), "seconds = the wire value, nanoseconds = 0", whyU+": the parsed instant is not the one on the wire for every value")
+					}
 					c.Check(ok2, "ZONE", shortName(fn), "time.Unix expressed in the configured zone", p.ipos(call), "only used as time.Unix(..).In(opts.timezoneOrUTC())", "a Unix timestamp is not converted to the configured timezone: "+why)
 				case "time.Date":
 					n++
